@@ -6,7 +6,7 @@
         net      = nil | lan,gw,dhcp,dns,first,dur,stage
         lease    = cid,state,mac,ip,expiry
         addr     = x | 4_<dec> | 6_<dec>_<zonehex|->       prefix = x | <addr>/<bits>
-      observation: ok <net1> <net2> <lease;lease;...|->   (lease = cid,mac,ip,sub,expiry sorted by cid)
+      observation: ok <net1> <net2> <lease;lease;...|->  (nofile: nofile <leases>)   (lease = cid,mac,ip,sub,expiry sorted by cid)
                  | err | panic
    newt <cfg> <captured> <hex text> err|doc ...   as new; the text is what the implementation is given,
         the document what yaml.Unmarshal made of it (computed by the harness)
@@ -138,6 +138,15 @@ Definition show_net (c : subnetcfg) : string :=
   show_prefix (s_lan c) ++ "," ++ show_addr (s_gw c) ++ "," ++ show_addr (s_dhcp c) ++ "," ++ show_addr (s_dns c) ++ "," ++
   show_addr (s_first c) ++ "," ++ dec_of_Z (s_dur c) ++ "," ++ dec_of_N (s_stage c).
 
+(* LeaseFilename == "": nothing is saved, the harness can only see the table *)
+Definition show_state_nofile (r : res dstate) : string :=
+  match r with
+  | Ok s => "nofile " ++ show_list (map show_lease (sort_by l_cid (d_table s)))
+  | Err _ => "err"
+  | Panic => "panic"
+  | Fuel => "fuel"
+  end.
+
 Definition show_state (r : res dstate) : string :=
   match r with
   | Ok s => "ok " ++ show_net (n_cfg (d_n1 s)) ++ " " ++ show_net (n_cfg (d_n2 s)) ++ " " ++
@@ -239,7 +248,7 @@ Definition dispatch (kind : string) (args : list string) : string :=
         match cfg_of_tok c, captured_of_tok cap, input_of_args rest with
         | Some c', Some cap', Some i =>
             let r := new c' cap' i in
-            out3 (show_state r) "-" (key_new c' cap' i r)
+            out3 (match i with NoFile => show_state_nofile r | _ => show_state r end) "-" (key_new c' cap' i r)
         | _, _, _ => BADARGS
         end
     | _ => BADARGS
